@@ -299,6 +299,20 @@ def _check_threshold_and_protocol(model: Model, f: FuncInfo, call: ast.Call, T: 
                                 undo_expr = True
                     if (assigned & retnames) and undo_expr:
                         undone = True
+        # the same decision written as guard clauses / a conditional expression: a return that is only reached when the flag is False has
+        # nothing to undo; one reached only when it is True must return the un-swapped expression itself
+        from ..model import effective_conditions
+        UNDO = ("transpose", "movedim", "permute", "swapaxes")
+        conds = dict(effective_conditions(node.stmt))
+        if conds.get(swapped) is False:
+            undone = True
+        elif conds.get(swapped) is True and any(u in ast.unparse(node.stmt.value) for u in UNDO):
+            undone = True
+        elif isinstance(node.stmt.value, ast.IfExp):
+            r_ = test_on_name(node.stmt.value.test)
+            if r_ and r_[0] == swapped:
+                arm = node.stmt.value.body if r_[1] is True else node.stmt.value.orelse
+                undone = undone or any(u in ast.unparse(arm) for u in UNDO)
         what = "return %s after _setup_linear_problem: column swap undone under `if %s`" % (ast.unparse(node.stmt.value), swapped)
         if undone:
             S.ok(f.fq, what)
